@@ -69,9 +69,10 @@ thread_local! {
 /// Caps the address space of this process (workers and child executions only, never the supervisor, whose
 /// children include the Miri interpreter). A library change that makes an iterator endless or pre-allocates
 /// from an untrusted bound then ends in a failed allocation (abort, reported as a death of that run and
-/// confirmed in isolation) instead of exhausting the machine. `QSIM_MEM_LIMIT_GB` (default 12, 0 = no limit).
+/// confirmed in isolation) instead of exhausting the machine. `QSIM_MEM_LIMIT_GB` (default 3: 16 workers then stay
+/// below the 62 GB of this machine; 0 = no limit).
 pub fn limit_memory() {
-    let gb: u64 = std::env::var("QSIM_MEM_LIMIT_GB").ok().and_then(|s| s.parse().ok()).unwrap_or(12);
+    let gb: u64 = std::env::var("QSIM_MEM_LIMIT_GB").ok().and_then(|s| s.parse().ok()).unwrap_or(3);
     if gb == 0 || cfg!(miri) {
         return;
     }
@@ -163,6 +164,34 @@ impl Tier {
             "quick" => Some(Tier::Quick),
             "thorough" => Some(Tier::Thorough),
             _ => None,
+        }
+    }
+}
+
+/// An iterator whose `size_hint` is legal but unhelpful: the bounds enclose the true length, nothing more
+/// (what `filter`, `take_while` or `flat_map` over a larger source report). `inner` must report exact hints.
+pub struct Hinted<I> {
+    pub inner: I,
+    pub style: u8,
+}
+
+pub const HINT_STYLES: u8 = 6;
+
+impl<I: Iterator> Iterator for Hinted<I> {
+    type Item = I::Item;
+    fn next(&mut self) -> Option<I::Item> {
+        self.inner.next()
+    }
+    fn size_hint(&self) -> (usize, Option<usize>) {
+        let (lo, _) = self.inner.size_hint();
+        match self.style {
+            0 => self.inner.size_hint(),
+            1 => (0, None),
+            // over-estimates by more than a 512-bit line, like a filter that drops a third of its source
+            2 => (lo.min(1), Some(lo + 513 + lo / 2)),
+            3 => (0, Some(usize::MAX)),
+            4 => (lo.min(1), Some(1usize << 62)),
+            _ => (0, Some((1usize << 63) + 5)),
         }
     }
 }
